@@ -47,8 +47,9 @@ def check_program(prog, acc, rnd=None, name=None):
     try:
         c = norm.compile_exps(r.text)
     except (ParseError, SsbCompilerError, ValueError) as e:
-        acc.count("rejected:" + gsig(type(e).__name__, str(e)[:40]))
-        acc.add_to_set("rejected_examples", gsig(type(e).__name__, str(e)[:60]))
+        acc.count("rejected:" + type(e).__name__)
+        if len(acc.sets.get("rejected_messages", ())) < 12:
+            acc.add_to_set("rejected_messages", gsig(type(e).__name__, str(e)[:60]))
         return None
     except Exception as e:
         acc.count("compile_crash:" + type(e).__name__)
